@@ -177,6 +177,45 @@ Theorem C03_save_without_segments_end_to_end :
 Proof. exact save_noseg_saved_file. Qed.
 Print Assumptions C03_save_without_segments_end_to_end.
 
+(* ... and for objects with ONE segment of automatically addressed members plus sections outside it (the class of
+   C03_one_segment_saved_file), whose segment has been asked for its data once: save() returns true, leaves the
+   object the layout produced, and the stream holds the ELF header, the program header record, every section header
+   record and every section's data verbatim at their places *)
+Theorem C03_save_with_one_segment_end_to_end :
+  forall junk el h0 g bound ms,
+    let idxs := g_sections g in
+    let align := if 0 <? p_align g then p_align g else 1 in
+    let secs := el_secs el in
+    let pos0 := e_ehsize h0 + e_phentsize h0 in
+    el_hdr el = Some h0 -> el_segs el = [g] -> lenN secs < 2 ^ 16 ->
+    lenN idxs < 2 ^ 16 -> idxs <> [] -> g_offset_set g = false -> p_type g <> PT_PHDR -> NoDup idxs ->
+    Forall2 (fun i s => nth_optN secs i = Some s) idxs ms ->
+    Forall auto_member ms -> Forall (fun s => sh_addralign s <= p_align g) ms ->
+    bound <= 2 ^ 63 -> Forall (fun s => bound <= 2 ^ xw (s_cls s)) secs -> bound <= 2 ^ xw (g_cls g) ->
+    bound <= 2 ^ xw (e_cls h0) -> p_align g < 2 ^ 63 ->
+    p_vaddr g + pos0 + align + mbudget ms + budget secs + 16 + e_shentsize h0 * lenN secs < bound ->
+    indexed_from 0 secs ->
+    (forall s, In s secs -> s_index s = 0 -> csize s = 0) ->
+    lenN (e_ident h0) = 16 -> e_ehsize h0 = ehdr_size (e_cls h0) ->
+    (forall s, In s secs -> shdr_size (s_cls s) <= e_shentsize h0) ->
+    phdr_size (g_cls g) <= e_phentsize h0 -> g_index g = 0 ->
+    el_xlat el = [] -> el_compr el = false -> Forall writable secs -> g_loaded g = true ->
+    exists el' h' g',
+      layout el = Ok (el', true) /\ el_hdr el' = Some h' /\ el_segs el' = [g'] /\
+      let plan := oneseg_plan h' (el_secs el') (segments_plan (e_enc h') h' [g']) in
+      (plan_small 0 plan ->
+       exists os,
+         save junk el (new_ostream None) = Ok (el', os, true) /\
+         let file := os_bytes os in
+         sliceN file 0 (ehdr_size (e_cls h')) = ehdr_bytes h' /\
+         sliceN file (e_phoff h') (phdr_size (g_cls g')) = phdr_bytes (e_enc h') g' /\
+         (forall s, In s (el_secs el') ->
+            sliceN file (e_shoff h' + e_shentsize h' * s_index s) (shdr_size (s_cls s)) = shdr_bytes (e_enc h') s) /\
+         (forall s b, In s (el_secs el') -> csize s <> 0 -> s_data s = Some b ->
+            sliceN file (sh_offset s) (sh_size s) = firstnN b (sh_size s))).
+Proof. exact save_oneseg_end_to_end. Qed.
+Print Assumptions C03_save_with_one_segment_end_to_end.
+
 (* non-vacuity: an ELF32 object with the null section and a 5-byte program section meets every premise, and save()
    of it evaluates to true with a 144-byte file *)
 Definition ex_sv_secs : list section :=
